@@ -285,8 +285,8 @@ def body_crash(ctx):
 
 
 def run(ctx):
-    hyp_run(ctx, 'c15.machine', CASE, body(ctx), ctx.pick(150, 3000))
-    hyp_run(ctx, 'c15.crash', CRASH_CASE, body_crash(ctx), ctx.pick(6, 200))
+    hyp_run(ctx, 'c15.machine', CASE, body(ctx), ctx.pick(150, 10000), frac=0.6)
+    hyp_run(ctx, 'c15.crash', CRASH_CASE, body_crash(ctx), ctx.pick(6, 1000))
 
 
 def replay(ctx, check, case):
